@@ -28,10 +28,6 @@ ID = "C01"
 OID = "c01"
 
 QUOTE_OF_KIND = {"aave": "USD", "squeeth": "USD", "gmx1": "USD", "gmx2": "USD"}
-BALANCE_FRAMES = {
-    "broker.py:get_account_status", "market.py:get_market_balance", "market2.py:get_market_balance",
-    "market.py:_get_effective_collateral_in_eth", "market.py:get_position_amount", "market.py:get_twap_price",
-}
 
 
 # --------------------------------------------------------------------------------------------------- generation
@@ -43,6 +39,26 @@ def generate(seed: int, tier: str = "quick") -> dict:
 
 
 after_truncate = W.after_truncate
+
+
+def shrink_candidates(scenario):
+    """drop one market that no remaining operation addresses (never the pool of a remaining Squeeth market, never so
+    that only option markets are left: that would change the bar grid)"""
+    import copy
+
+    w = scenario["world"]
+    used = {o.get("m") for o in scenario.get("program", []) if o.get("m")}
+    pools = {m["pool"] if isinstance(m["pool"], str) else m["pool"]["name"] for m in w["markets"] if m["kind"] == "squeeth"}
+    for mw in w["markets"]:
+        name = mw["name"]
+        if name in used or name in pools:
+            continue
+        rest = [m for m in w["markets"] if m["name"] != name]
+        if not rest or all(m["kind"] == "deribit" for m in rest):
+            continue
+        sc = copy.deepcopy(scenario)
+        sc["world"]["markets"] = [m for m in sc["world"]["markets"] if m["name"] != name]  # a Squeeth market's pool stays as a plain pool
+        yield sc
 
 
 # --------------------------------------------------------------------------------------------------- oracle
@@ -228,7 +244,7 @@ class ValuationOracle(Oracle):
                 is_open = ts == hour
                 seen = self.drb_seen_cash.get(name)
                 moved = (not is_open) and seen is not None and seen != s["cash"]
-                cause = ("open_bar" if is_open else "closed_bar") + (":cash_moved_since_last_open_bar" if moved else "") + (":instrument_missing_from_book" if missing else "")
+                cause = ("open_bar" if is_open else "closed_bar") + (":cash_moved_since_last_open_bar" if moved else (":instrument_missing_from_book" if missing else ""))
                 out["markets"][name] = {"lo": lo, "hi": hi, "tol": tol, "site": "deribit:" + cause}
                 out["states"].append(("deribit", qrel, ("options" if s["pos"] else "cash_only") + ":" + cause))
                 if missing:
@@ -259,31 +275,31 @@ class ValuationOracle(Oracle):
         got = status.asset_value
         got = Decimal(got) if not isinstance(got, Decimal) else got
         if not _fin(got):
-            sim.violate(OID + ".wallet_value", f"{where}:wallet:not_a_number", row=bar, got=got)
+            sim.violate(OID + ".wallet_value", "wallet:not_a_number", where=where, row=bar, got=got)
         elif abs(got - want) > tol:
-            sim.violate(OID + ".wallet_value", f"{where}:wallet", row=bar, ts=exp["ts"], got=got, want=_s(want), tol=_s(tol))
+            sim.violate(OID + ".wallet_value", "wallet", where=where, row=bar, ts=exp["ts"], got=got, want=_s(want), tol=_s(tol))
         # 2. every market on its own
         reported = {}
         for name, e in exp["markets"].items():
             key = sim.markets[name].market_info
             if key not in status.market_status:
-                sim.violate(OID + ".market_value", f"{where}:{e['site']}:market_not_reported", row=bar, market=name)
+                sim.violate(OID + ".market_value", f"{e['site']}:market_not_reported", where=where, row=bar, market=name)
                 continue
             g = status.market_status[key].net_value
             g = Decimal(g) if not isinstance(g, Decimal) else g
             reported[name] = g
             if not _fin(g):
-                sim.violate(OID + ".market_value", f"{where}:{e['site']}:not_a_number", row=bar, market=name, got=g)
+                sim.violate(OID + ".market_value", f"{e['site']}:not_a_number", where=where, row=bar, market=name, got=g)
                 continue
             if g < e["lo"] - e["tol"] or g > e["hi"] + e["tol"]:
-                sim.violate(OID + ".market_value", f"{where}:{e['site']}", row=bar, ts=exp["ts"], market=name, got=g,
+                sim.violate(OID + ".market_value", e["site"], where=where, row=bar, ts=exp["ts"], market=name, got=g,
                             want=_s(e["lo"]) if e["lo"] == e["hi"] else [_s(e["lo"]), _s(e["hi"])], tol=_s(e["tol"]),
                             diff=_s(g - e["lo"]), market_quote=e["quote"])
         # 3. the sum: wallet + every market's value converted into the account's quote token
         nv = status.net_value
         nv = Decimal(nv) if not isinstance(nv, Decimal) else nv
         if not _fin(nv):
-            sim.violate(OID + ".net_value", f"{where}:total:not_a_number", row=bar, got=nv)
+            sim.violate(OID + ".net_value", "total:not_a_number", where=where, row=bar, got=nv)
         elif _fin(got) and all(_fin(reported.get(n)) for n in exp["markets"]):
             with V.high():
                 total, scale = got, abs(got)
@@ -301,14 +317,14 @@ class ValuationOracle(Oracle):
                     with V.high():
                         dropped = sum((reported[n] * (1 - exp["markets"][n]["conv"]) for n in sub), Decimal(0))
                     if abs(resid - dropped) <= tol_sum:
-                        kinds = "+".join(sorted({self.kinds[n] for n in sub}))
+                        kinds = "+".join(sorted({self.kinds[n].rstrip("12") for n in sub}))
                         cause = f"value_of_{kinds}_market_not_converted"
                         break
-                sim.violate(OID + ".net_value", f"{where}:total:{cause}", row=bar, ts=exp["ts"], got=nv, want=_s(total), diff=_s(resid),
+                sim.violate(OID + ".net_value", f"total:{cause}", where=where, row=bar, ts=exp["ts"], got=nv, want=_s(total), diff=_s(resid),
                             account_quote=self.account_quote, conversions={n: [e["quote"], _s(e["conv"])] for n, e in exp["markets"].items()})
         # 4. every holding exactly once
         for cause, pool, key, pv in exp["once"]:
-            sim.violate(OID + ".counted_once", f"{where}:{cause}", row=bar, pool=pool, position=[key.lower_tick, key.upper_tick], position_value=_s(pv))
+            sim.violate(OID + ".counted_once", cause, where=where, row=bar, pool=pool, position=[key.lower_tick, key.upper_tick], position_value=_s(pv))
 
     # ---------------------------------------------------------------------------------------- hooks
     def phase(self, sim, bar, phase, pos):
@@ -338,11 +354,23 @@ class ValuationOracle(Oracle):
             self.judge(sim, outcome["result"], exp, "status_read")
         elif name == "acct.status" and outcome["status"] == "rejected":
             # the read itself failed: no value reported at all
-            sim.violate(OID + ".crash", f"status_read:{outcome.get('exc')}", msg=outcome.get("msg"))
+            if self.dangling_lp(sim):
+                sim.count("probe:valuation_failed:vault_references_position_deleted_through_pool_api(observation)")
+            else:
+                sim.violate(OID + ".crash", f"status_read:{outcome.get('exc')}", msg=outcome.get("msg"))
         elif name in ("deribit.deposit", "deribit.withdraw") and outcome["status"] == "ok" and sim.bar >= 0 and sim.snapshot is not None:
             ts = pd.Timestamp(sim.snapshot.timestamp)
             if ts != ts.floor("1h"):
                 sim.count(f"fault:{name.split('.')[1]}_on_closed_bar")
+
+    def dangling_lp(self, sim):
+        """a vault references an LP position that is no longer in its pool: the strategy emptied and collected the lent
+        position through the pool's own API (the pool does not refuse that), after which nothing can value the vault"""
+        for sq, pool in self.sq_pool.items():
+            for v in sim.markets[sq].vault.values():
+                if v.uni_nft_id is not None and v.uni_nft_id not in sim.markets[pool].positions:
+                    return True
+        return False
 
     def finish(self, sim):
         rows = sim.actuator.account_status
@@ -360,13 +388,18 @@ class ValuationOracle(Oracle):
             if name == "DemeterError" and "must quote by stable coin" in msg:
                 sim.count("probe:configuration_refused_by_quote_token_check")
                 return
-            inside = [w for w in sim.crash_where[-3:] if w in BALANCE_FRAMES]
-            if inside:
-                if name == "KeyError" and not self.prices.has(msg.strip("'\"")) and "broker.py:get_account_status" == sim.crash_where[-1]:
+            import traceback
+
+            frames = [f.name for f in traceback.extract_tb(sim.crash.__traceback__)]
+            if "get_account_status" in frames:  # the loop died while valuing the account: no value is reported at all
+                if name == "KeyError" and sim.crash_where[-1] == "broker.py:get_account_status" and not self.prices.has(msg.strip("'\"")):
                     raise HarnessError(f"token {msg} has no price column: generator bug")
-                sim.violate(OID + ".crash", f"bar_loop:{name}@{inside[-1]}", msg=msg[:200], where=sim.crash_where)
+                if self.dangling_lp(sim):
+                    sim.count("probe:valuation_failed:vault_references_position_deleted_through_pool_api(observation)")
+                else:
+                    sim.violate(OID + ".crash", f"bar_loop:{name}@{sim.crash_where[-1]}", msg=msg[:200], where=sim.crash_where)
             else:
-                sim.count("probe:crash_outside_valuation:" + name)
+                sim.count("probe:crash_outside_valuation:" + name + "@" + sim.crash_where[-1])
 
 
 # --------------------------------------------------------------------------------------------------- execution
@@ -395,7 +428,7 @@ RULE = (
     "cash only/options x open bar/closed bar/cash moved on closed bars/held instrument missing from the book; gmx none/glp/glp+reward/gm; "
     "judged at bar end or after an operation) in which the market holds something or the bar is hostile"
 )
-BUDGET = {"quick": {"runs": 2200, "wall": 55}, "thorough": {"runs": 60000, "wall": 1100}}
+BUDGET = {"quick": {"runs": 1800, "wall": 48}, "thorough": {"runs": 40000, "wall": 1100}}
 LEVEL = "exploration"
 ASSUMPTIONS = [
     "bar interval is 1 minute (an option market alone: one bar per listed hour); what a resampled bar's data row is, is the subject of C02/C05/C08, not restated here",
@@ -405,13 +438,14 @@ ASSUMPTIONS = [
     "Deribit: an option is valued at the mark of the bar's book (the hour the bar belongs to), exact or rounded to one fee step; a held instrument that has no row in that book is accepted at any value between nothing and its highest earlier mark (the text does not say what an unquoted option is worth)",
     "runs with an option market start on the hour with the floor hour present (a run starting off the hour crashes before any value is reported, DESIGN section 5)",
     "programs move LP positions between markets only through Squeeth's deposit/withdraw_uni_position (and its liquidation); a bare transfer_position_out by the strategy, which hands the position to nobody, is not generated",
+    "a run that dies is an observation, not a C01 violation, when no value is reported for a reason outside valuation: the configuration is refused by the quote-token check, the loop crashes outside get_account_status, or a vault references an LP position that the strategy emptied, collected and thereby deleted through the pool's own API (the pool does not refuse that; nothing can value such a vault); any other exception raised inside get_account_status is reported as c01.crash",
     "Squeeth vault value uses the Squeeth frame's own WETH / OSQTH columns ('that bar's market data'); the account price frame carries the same columns",
     "Aave position state is read from the position dicts (scaled amount per token) so that observing never warms or resets a memoised view",
 ]
 LEVEL_TEXT = (
     "seeded exploration: generated mixed worlds (1-4 of: Uniswap pools with decimals from {6,8,18} and either token as quote, Aave v3, "
     "Squeeth with its pool incl. vaults holding an LP position, Deribit ETH/BTC, GMX v1, GMX v2; account quoted in USD, USDC or WETH) x "
-    "programs that open, modify and close positions in every market from every phase, with hostile histories (price shocks that "
+    "programs that open, modify and close positions in every market from every phase (initialize, before_bar, trigger, on_bar, after_bar, notify), with hostile histories (price shocks that "
     "liquidate Aave / Squeeth positions at bar end, option expiry, missing instruments / hours, deposits and withdrawals on closed option "
     "bars); at every bar end and after account-status reads the reported wallet value, every market value and the total are compared "
     "with an independent recomputation from public position state and the scenario's raw numbers. Sampling, not proof."
